@@ -57,6 +57,8 @@ const (
 	IDScript     = 5
 	IDNoContract = 6
 	NAcct        = 7
+	IDDeposit    = 7 // pseudo account: the (v2) deposit held by the script contract
+	NUniv        = 8
 	NKeys        = 3 // storage keys per account
 )
 
@@ -136,8 +138,9 @@ type Tx struct {
 
 type BlockIn struct {
 	P   Params     `json:"p"`
-	Bal []string   `json:"bal"` // NAcct decimal balances
-	Sto [][]int64  `json:"sto"` // NAcct x NKeys values, 0 = absent
+	Bal []string   `json:"bal"` // NUniv decimal balances (the last one: deposit of the script contract)
+	Sto [][]int64  `json:"sto"` // NUniv x NKeys values, 0 = absent
+	Vals []int     `json:"vals"` // initial validator list (EOA ids, at least one)
 	Txs []Tx       `json:"txs"`
 }
 
@@ -159,6 +162,8 @@ type TxObs struct {
 	Bal     []*big.Int // balances of the universe after this transaction
 	Sto     [][]int64
 	Digest  []string // hex of AccountSnapshot.Bytes() per account (nil snapshot = "")
+	Vals    []int    // validator list (account ids; -1 = unknown address)
+	Idx     []int    // ValidatorState.IndexOf for the EOAs 0..IDTreasury
 	DataLen int      // bytes of the data field as sent
 }
 
@@ -166,10 +171,14 @@ type BlockObs struct {
 	PreBal    []*big.Int
 	PreSto    [][]int64
 	PreDigest []string
+	PreVals   []int
+	PreIdx    []int
 	Txs       []TxObs
 	Final     []*big.Int // after the treasury credit (OnExecutionEnd)
 	FinalSto  [][]int64
 	FinalDig  []string
+	FinalVals []int
+	FinalIdx  []int
 	TotalFee  *big.Int   // ExecutionResult.TotalFee()
 	Virtual   *big.Int
 }
@@ -285,8 +294,10 @@ func NewEnv() (*Env, error) {
 	}
 	// one-time initialisation block: contract account for the script address,
 	// one validator with a BTP key and one open BTP network (id 1).
-	st := &setupJSON{Type: setupType, Nonce: e.nextNonce(), Init: true,
-		PubKey: common.HexBytes(wallets[0].PublicKey())}
+	st := &setupJSON{Type: setupType, Nonce: e.nextNonce(), Init: true}
+	for i := 0; i <= IDTreasury; i++ {
+		st.PubKeys = append(st.PubKeys, common.HexBytes(wallets[i].PublicKey()))
+	}
 	tr, _, err := e.execute(itr, []module.Transaction{e.setupTx(st)}, 1, nil)
 	if err != nil {
 		return nil, fmt.Errorf("init block: %v", err)
@@ -357,17 +368,15 @@ func (e *Env) execute(parent module.Transition, txs []module.Transaction, height
 
 // ---------------------------------------------------------------- observers
 
-type acctReader interface {
-	GetAccountSnapshot(id []byte) state.AccountSnapshot
-}
-
-func readUniverse(wc acctReader) (bal []*big.Int, sto [][]int64, dig []string) {
-	bal = make([]*big.Int, NAcct)
-	sto = make([][]int64, NAcct)
-	dig = make([]string, NAcct)
-	for i := 0; i < NAcct; i++ {
+func readUniverse(wc state.WorldContext) (bal []*big.Int, sto [][]int64, dig []string) {
+	bal = make([]*big.Int, NUniv)
+	sto = make([][]int64, NUniv)
+	dig = make([]string, NUniv)
+	for i := 0; i < NUniv; i++ {
 		sto[i] = make([]int64, NKeys)
 		bal[i] = new(big.Int)
+	}
+	for i := 0; i < NAcct; i++ {
 		ass := wc.GetAccountSnapshot(addrs[i].ID())
 		if ass == nil {
 			continue
@@ -380,6 +389,36 @@ func readUniverse(wc acctReader) (bal []*big.Int, sto [][]int64, dig []string) {
 			}
 		}
 		dig[i] = fmt.Sprintf("%x", ass.Bytes())
+		if i == IDScript {
+			bal[IDDeposit] = depositOf(wc, ass)
+		}
+	}
+	return
+}
+
+// depositOf: total usable deposit of an account (GetDepositInfo "availableDeposit").
+func depositOf(dc state.DepositContext, ad state.AccountData) *big.Int {
+	info, err := ad.GetDepositInfo(dc, module.JSONVersionLast)
+	if err != nil || info == nil {
+		return new(big.Int)
+	}
+	if s, ok := info["availableDeposit"].(string); ok {
+		v := new(big.Int)
+		if intconv.ParseBigInt(v, s) == nil {
+			return v
+		}
+	}
+	return big.NewInt(-1)
+}
+
+func readValidators(wc state.WorldContext) (vals []int, idx []int) {
+	vs := wc.GetValidatorState()
+	for i := 0; i < vs.Len(); i++ {
+		v, _ := vs.Get(i)
+		vals = append(vals, idOfAddress(v.Address()))
+	}
+	for a := 0; a <= IDTreasury; a++ {
+		idx = append(idx, vs.IndexOf(addrs[a]))
 	}
 	return
 }
@@ -410,6 +449,7 @@ func (e *Env) onTxEnd(wc state.WorldContext, rct txresult.Receipt) {
 		}
 	}
 	o.Bal, o.Sto, o.Digest = readUniverse(wc)
+	o.Vals, o.Idx = readValidators(wc)
 	e.rec.Txs = append(e.rec.Txs, o)
 }
 
@@ -420,6 +460,7 @@ func (e *Env) onExecEnd(wc state.WorldContext, er base.ExecutionResult) {
 		return
 	}
 	e.rec.Final, e.rec.FinalSto, e.rec.FinalDig = readUniverse(wc)
+	e.rec.FinalVals, e.rec.FinalIdx = readValidators(wc)
 	e.rec.TotalFee = new(big.Int).Set(er.TotalFee())
 	e.rec.Virtual = new(big.Int).Set(er.VirtualFee())
 }
@@ -453,7 +494,7 @@ type setupJSON struct {
 	Type   string          `json:"type"`
 	Nonce  int64           `json:"nonce"`
 	Init   bool            `json:"init,omitempty"`
-	PubKey common.HexBytes `json:"pubKey,omitempty"`
+	PubKeys []common.HexBytes `json:"pubKeys,omitempty"`
 	In     *BlockIn        `json:"in,omitempty"`
 }
 
@@ -520,8 +561,12 @@ func (t *setupTx) Execute(ctx contract.Context, wcs state.WorldSnapshot, estimat
 			return nil, fmt.Errorf("no BTP state")
 		}
 		bc := state.NewBTPContext(ctx, sys)
-		if err := bs.SetPublicKey(bc, addrs[0], "ecdsa/secp256k1", t.js.PubKey); err != nil {
-			return nil, err
+		// every account that may become a validator has a BTP key, so that a validator
+		// change never invalidates the proof context of the open network
+		for i, pk := range t.js.PubKeys {
+			if err := bs.SetPublicKey(bc, addrs[i], "ecdsa/secp256k1", pk); err != nil {
+				return nil, err
+			}
 		}
 		if _, nid, err := bs.OpenNetwork(bc, "eth", "verif", addrs[0]); err != nil {
 			return nil, err
@@ -548,6 +593,30 @@ func (t *setupTx) Execute(ctx contract.Context, wcs state.WorldSnapshot, estimat
 		}
 		if err := scoredb.NewDictDB(sys, state.VarStepLimit, 1).Set(state.StepLimitTypeInvoke, in.P.Invoke); err != nil {
 			return nil, err
+		}
+		var vl []module.Validator
+		for _, a := range in.Vals {
+			if a < 0 || a > IDTreasury {
+				return nil, fmt.Errorf("bad validator id")
+			}
+			v, err := state.ValidatorFromAddress(addrs[a])
+			if err != nil {
+				return nil, err
+			}
+			vl = append(vl, v)
+		}
+		if len(vl) == 0 {
+			return nil, fmt.Errorf("no validator")
+		}
+		if err := ctx.GetValidatorState().Set(vl); err != nil {
+			return nil, err
+		}
+		if dep, ok := new(big.Int).SetString(in.Bal[IDDeposit], 10); !ok || dep.Sign() < 0 {
+			return nil, fmt.Errorf("bad deposit")
+		} else if dep.Sign() > 0 {
+			if err := ctx.GetAccountState(addrs[IDScript].ID()).AddDeposit(ctx, dep); err != nil {
+				return nil, err
+			}
 		}
 		for i := 0; i < NAcct; i++ {
 			as := ctx.GetAccountState(addrs[i].ID())
@@ -694,7 +763,7 @@ func (e *Env) realTx(tx *Tx) (module.Transaction, int, error) {
 
 // RunBlock executes the unchecked set-up block for `in` and then the checked block.
 func (e *Env) RunBlock(in *BlockIn) (*BlockObs, error) {
-	if len(in.Bal) != NAcct || len(in.Sto) != NAcct {
+	if len(in.Bal) != NUniv || len(in.Sto) != NUniv {
 		return nil, fmt.Errorf("bad universe size")
 	}
 	for _, s := range in.Sto {
@@ -725,6 +794,7 @@ func (e *Env) RunBlock(in *BlockIn) (*BlockObs, error) {
 		return nil, fmt.Errorf("pre-state block: %v", err)
 	}
 	obs.PreBal, obs.PreSto, obs.PreDigest = pre.Final, pre.FinalSto, pre.FinalDig
+	obs.PreVals, obs.PreIdx = pre.FinalVals, pre.FinalIdx
 	_, rcts, err := e.execute(str, txs, 3, obs)
 	if err != nil {
 		return nil, fmt.Errorf("checked block: %v", err)
